@@ -277,14 +277,14 @@ prop(
 prop(
     "C17",
     module="Aquatic.Props.C17",
-    extra_modules=["Aquatic.Props.C08", "Aquatic.Props.C09", "Aquatic.Props.WsStore"],
-    technique="Lean 4 proof (addressing of every message in the refined model: one reply on the requesting connection, forwards to the owner of the addressed peer only, second peer id refused and connection ended, close leaves nothing in sending order; two-channel scheduling model with the overtaking counterexample) + socket-level differential runs against the real tracker process with several WebSocket clients",
+    extra_modules=["Aquatic.Props.C08", "Aquatic.Props.C09", "Aquatic.Props.WsStore", "Aquatic.Props.C17Shards"],
+    technique="Lean 4 proof (n swarm workers refine ONE reference tracker for announce / second peer id / close / per-worker cleaning / merged scrape, for every n > 0; addressing of every message in the refined model: one reply on the requesting connection, forwards to the owner of the addressed peer only, second peer id refused and connection ended, close leaves nothing in sending order; two-channel scheduling model with the overtaking counterexample) + socket-level differential runs against the real tracker process with several WebSocket clients",
     runs=[dict(harness="wsnet", driver="wsstore", quick=dict(cases=6), thorough=dict(cases=60, burst=600))],
     nontrivial=["offers-forwarded", "answer-forwarded", "ignored-foreign-owner", "second-peer-id-closes", "close-with-entries", "wburst", "scrape-nonzero"],
-    level_text="Theorems (on the model refined in C08 / C09, for every reachable state): an announce that is not ignored yields, after the forwarded messages, exactly one announce reply addressed to the sender; a scrape exactly one scrape reply to the requester; every forwarded offer / answer is addressed to the connection owning the addressed stored peer of the same torrent, tagged with the sender's peer id; an announce under a second peer id for a torrent not stopped yields one error reply and ends the connection, whose peers all disappear; after a close processed in sending order no stored peer is owned by the closed connection. Two-channel model (requests / control, each FIFO, swarm worker free to pick): in sending order nothing remains; taking the close notice first left the entry on the pinned tree (negation witness, finding F11) and is harmless with the swarm worker's memory of closed connections (the repair): an announce of a connection already reported closed is dropped. Tie: tracker child process, socket_workers x swarm_workers in {1,2,3}^2, 3..6 WebSocket clients, announces with offers / answers, scrapes over torrents of different swarm workers, garbage messages, orderly and abrupt closes, bursts of pipelined announces followed by a TCP reset; every message each client receives is compared with model and reference.",
-    level_note="partial for the runtime part: glommio channel meshes and task scheduling, TCP and WebSocket framing are exercised only. F11 (a burst of announces overtaken by the close notice left peers of a dropped connection behind) was found by these runs and repaired; F14 (the error reply for a second peer id was dropped when the reader task ended the connection) was found by these runs and repaired as well.",
+    level_text="Theorems: for every number n > 0 of swarm workers, the tracker with one torrent map per worker (announces routed by the first hash byte, the close notice and scrapes split per worker, parts merged by the connection's writer, each worker cleaning on its own) keeps every worker in simulation with its share of ONE reference tracker and sends exactly the reference's messages: gate refusal, refusal of a second peer id with the connection's entries gone from every worker, replies and forwards of an accepted announce, one merged scrape reply for every scrape of at most max_scrape_torrents hashes (none included, after the repair of F15). Then (on the model refined in C08 / C09, for every reachable state): an announce that is not ignored yields, after the forwarded messages, exactly one announce reply addressed to the sender; a scrape exactly one scrape reply to the requester; every forwarded offer / answer is addressed to the connection owning the addressed stored peer of the same torrent, tagged with the sender's peer id; an announce under a second peer id for a torrent not stopped yields one error reply and ends the connection, whose peers all disappear; after a close processed in sending order no stored peer is owned by the closed connection. Two-channel model (requests / control, each FIFO, swarm worker free to pick): in sending order nothing remains; taking the close notice first left the entry on the pinned tree (negation witness, finding F11) and is harmless with the swarm worker's memory of closed connections (the repair): an announce of a connection already reported closed is dropped. Tie: tracker child process, socket_workers x swarm_workers in {1,2,3}^2, 3..6 WebSocket clients, announces with offers / answers, scrapes over torrents of different swarm workers, garbage messages, orderly and abrupt closes, bursts of pipelined announces followed by a TCP reset; every message each client receives is compared with model and reference.",
+    level_note="partial for the runtime part: glommio channel meshes and task scheduling, TCP and WebSocket framing are exercised only. F11 (a burst of announces overtaken by the close notice left peers of a dropped connection behind) was found by these runs and repaired; F14 (the error reply for a second peer id was dropped when the reader task ended the connection) was found by these runs and repaired as well; F15 (a scrape naming no torrent was never answered) was found while modelling the scrape split and repaired.",
     design_ref="§8 C17",
-    assumptions=["a message is considered not sent if it has not arrived 150 ms after the last one (3 s at most per operation)"],
+    assumptions=["channels between a swarm worker, a socket worker and a connection are FIFO (what the fenced collection of the socket-level run relies on)", "scrapes of at most max_scrape_torrents hashes (the limit is applied per swarm worker in the code; no property states a WebTorrent scrape limit)"],
 )
 
 prop(
